@@ -53,6 +53,9 @@ def suite_fonts(ctx, res, n):
     ops, meta = [], []
     # regression set: a coloured .notdef at each input position, per OT-SVG flavour (fixed seeds: positions 2, 1, 0)
     fixed = [fontgen.make_colored_notdef_case(sd, f) for f in ("untouchedsvg", "picosvg", "glyf_colr_1") for sd in (0, 1, 2)]
+    # different outlines, identical gradients: separate OT-SVG documents that must each define what they reference
+    fixed += [fontgen.make_shared_gradient_case(ctx.rng.getrandbits(32), f) for f in ("picosvg", "picosvgz")]
+    fixed += [fontgen.make_use_override_case(ctx.rng.getrandbits(32), "picosvg")]
     for k in range(n + len(fixed)):
         fmt = C04.ALL_FORMATS[k % len(C04.ALL_FORMATS)] if k < n else fixed[k - n]["fmt"]
         if k >= n:
